@@ -155,4 +155,55 @@ PROPS = {
         "level_text": "Agreement between executions of the same intent under different spellings, with ArgMatches' own PartialEq as the comparison; ambiguous prefixes enumerated per command.",
         "level_note": "Trusted: the renderer's notion of 'equivalent' (DESIGN C08).",
     },
+    "C05": {
+        "quick_ms": 15000,
+        "thorough_ms": 240000,
+        "floors": {"tail.ok": 20000, "tail.dash-tokens": 10000},
+        "rule": "conventional commands (options, flags, subcommands incl. flag subcommands, infer_*) whose tail level (root or a subcommand) ends in a "
+                "multi-valued positional `rest` (num_args 0.. / 1.., Set/Append, with/without last(true), with/without a leading single positional, "
+                "String or OsString parser, optional delimiter, dont_delimit_trailing_values) x valid prefixes rendered from intents (any spelling; "
+                "may leave an option with satisfied minimum pending) x tails of 0-5 hostile tokens (--help -h -V --version -- - \"\" help, every defined "
+                "long/short (+=v), clusters, subcommand names/aliases of this and the root level, hostile alphabet incl. non-UTF-8 for OsString, -1). "
+                "Oracle: parse(prefix -- tail) is Ok, `rest` (and the leading positional) hold the tail byte-for-byte in order (split only at a "
+                "declared delimiter), no subcommand dispatched, no help/version, and every option/flag observation equals that of parse(prefix).",
+        "assumptions": COMMON_ASSUME + ["premise 'able to absorb': the prefix itself parses; positionals are untyped (String/OsString); no value terminator on the tail positional",
+                                        "with dont_delimit_trailing_values + delimiter the split of individual tokens is not judged"],
+        "technique": "metamorphic + reference-model runtime monitor: parse(prefix) vs parse(prefix -- tail), tail conservation byte-for-byte",
+        "level_text": "Two executions per case are compared (non-interference) and the tail is checked for exact conservation; ~10^6 cases per quick run.",
+        "level_note": "Trusted: the distribution rule of tail tokens over positionals (last => all to it; else index order).",
+    },
+    "C06": {
+        "quick_ms": 15000,
+        "thorough_ms": 240000,
+        "floors": {"lattice.Cli": 20000, "lattice.Env": 10000, "lattice.Default": 10000, "lattice.absent": 5000, "lattice.default_if_fired": 2000,
+                   "lattice.default_if_unset": 300, "lattice.default_missing_used": 2000, "verdict.err-as-expected": 3000},
+        "rule": "2-5 arguments each drawing a subset of {default_value(s), default_value_if(s) (IsPresent/Equals, Some/None default) on a plain "
+                "option, default_missing + num_args(0..=1) (+ require_equals), env (set/unset, delimiter-split), flags with env true/false} plus one "
+                "conflict, one requires and arg_required_else_help chosen so that only a *defaulted* argument could trigger them; x environments x argv "
+                "(each argument absent / with value(s) / without value). Oracle: lattice model cli > env > first matching default-if > default > "
+                "absent for (value_source, raw occurrences / flag value), default_missing exactly when present without value, verdict "
+                "Ok / ArgumentConflict / MissingRequiredArgument / help-on-missing computed from *explicit* presence only, args_present().",
+        "assumptions": COMMON_ASSUME + ["default_value_if conditions refer only to arguments without (conditional) defaults of their own (otherwise the outcome depends on definition order, which the property does not fix)",
+                                        "the process environment is private to the shard process; variables are set before the Command is built"],
+        "technique": "reference-model monitor: precedence-lattice model over the product of sources, with injected environments",
+        "level_text": "Every (definition, environment, argv) execution is compared with the lattice; defaults-as-presence is probed by relations only a default could trigger.",
+        "level_note": "Trusted: the lattice model (~60 lines).",
+    },
+    "C09": {
+        "quick_ms": 20000,
+        "thorough_ms": 300000,
+        "floors": {"result.ok": 20000, "global.supplied-at-depth-1": 3000, "global.supplied-at-depth-2": 1000, "external.checked": 300,
+                   "spelling.cluster.child-flags-after-flag-sub": 300, "spelling.cluster.parent-flags-before-flag-sub": 100,
+                   "spelling.sub.short-flag": 500, "spelling.sub.long-flag": 300, "spelling.sub.alias": 300},
+        "rule": "conventional trees of depth <= 2 with global flags/options (SetTrue/SetFalse/Count/Set, defaults) defined at depth 0 or 1, aliases, "
+                "short/long flag subcommands, external subcommands (OsString/String) x intents in which every level may supply the globals it "
+                "inherits x spellings incl. `-Syu` (child flags continuing the flag-subcommand token), `-vS` (parent flags before it) and nested "
+                "flag subcommands. Oracle: chain of canonical names == intent; every level's arguments exactly the intent's for that level; "
+                "for each global the deepest command-line occurrence (else env, else default) is observed with identical values and source at "
+                "every level from its definition down; external subcommand arguments byte-identical.",
+        "assumptions": COMMON_ASSUME + ["global Append arguments are outside the class (values are not merged across levels by design)"],
+        "technique": "reference-model monitor over subcommand chains: per-level attribution + global-agreement invariant on the observed ArgMatches tree",
+        "level_text": "Each execution's whole ArgMatches tree is compared with the intent tree; globals are checked as an agreement invariant across levels.",
+        "level_note": "Trusted: 'deepest explicit occurrence wins' as the statement of the documented global semantics.",
+    },
 }
